@@ -1,135 +1,122 @@
-// factgen re-reads /repo's sources (go/parser + go/ast, default build tags, non-test files) and
-// regenerates LDEval/Generated/Facts.lean: constants, tables and structural facts that the Lean
-// model is written against. Obligation modules prove Generated = Expected; a change to the code
-// that alters a table breaks an obligation at `lake build`.
+// factgen re-reads /repo's sources and regenerates LDEval/Generated/Facts.lean: the constants,
+// tables and structural facts that the Lean model is written against. The obligation modules
+// (LDEval/Obligations/*.lean) prove Generated = Expected and tie the generated tables to the
+// model's own tables, so a change to the code that alters a fact breaks an obligation at
+// `lake build`.
+//
+// The packages are loaded with go/packages (default build tags, non-test files; a second load with
+// the easyjson tag for the serialization entry points), type-checked, and built into SSA form
+// (golang.org/x/tools/go/ssa). Facts are stated so that behaviour-preserving rewrites leave them
+// unchanged: they never mention local variable, parameter or receiver names; tables that the
+// language treats as unordered (switch cases on distinct constants) are sorted; codec schemas are
+// flattened across helper functions (interprocedurally), so that extracting or inlining a helper
+// does not change them; the write set of an evaluation is computed over everything reachable from
+// Evaluate in the call graph rather than per function.
+//
+// A fact that cannot be extracted is emitted as a sentinel (and listed in extractionProblems); only
+// the obligations that mention it fail, so only the properties that rely on it are affected.
 package main
 
 import (
 	"flag"
 	"fmt"
 	"go/ast"
-	"go/parser"
+	"go/constant"
 	"go/token"
+	"go/types"
 	"os"
 	"path/filepath"
 	"sort"
 	"strconv"
 	"strings"
+
+	"golang.org/x/tools/go/packages"
+	"golang.org/x/tools/go/ssa"
+	"golang.org/x/tools/go/ssa/ssautil"
 )
 
-type pkgFiles struct {
-	name  string
-	files []*ast.File
-	fset  *token.FileSet
+const modPath = "github.com/launchdarkly/go-server-sdk-evaluation/v3"
+
+type world struct {
+	pkgs     map[string]*packages.Package // by import path
+	root     *packages.Package
+	model    *packages.Package
+	internal *packages.Package
+	prog     *ssa.Program
+	spkgs    map[string]*ssa.Package
+	decls    map[*types.Func]*ast.FuncDecl
 }
 
-func loadPkg(dir, name string) *pkgFiles {
-	fset := token.NewFileSet()
-	p := &pkgFiles{name: name, fset: fset}
-	entries, err := os.ReadDir(dir)
+func load(repo string, tags string) (*world, error) {
+	cfg := &packages.Config{Mode: packages.LoadAllSyntax, Dir: repo, Tests: false}
+	if tags != "" {
+		cfg.BuildFlags = []string{"-tags=" + tags}
+	}
+	pkgs, err := packages.Load(cfg, "./...")
 	if err != nil {
-		fail("cannot read %s: %v", dir, err)
+		return nil, err
 	}
-	names := []string{}
-	for _, e := range entries {
-		n := e.Name()
-		if e.IsDir() || !strings.HasSuffix(n, ".go") || strings.HasSuffix(n, "_test.go") {
-			continue
+	w := &world{pkgs: map[string]*packages.Package{}, spkgs: map[string]*ssa.Package{}, decls: map[*types.Func]*ast.FuncDecl{}}
+	for _, p := range pkgs {
+		if len(p.Errors) > 0 {
+			return nil, fmt.Errorf("package %s: %v", p.PkgPath, p.Errors[0])
 		}
-		names = append(names, n)
+		w.pkgs[p.PkgPath] = p
 	}
-	sort.Strings(names)
-	for _, n := range names {
-		path := filepath.Join(dir, n)
-		src, err := os.ReadFile(path)
-		if err != nil {
-			fail("read %s: %v", path, err)
-		}
-		// default build tags: skip files guarded by a positive build tag (verif hooks, easyjson)
-		head := string(src)
-		if i := strings.Index(head, "package "); i >= 0 {
-			head = head[:i]
-		}
-		if strings.Contains(head, "//go:build") {
-			line := head[strings.Index(head, "//go:build"):]
-			line = line[:strings.IndexByte(line, '\n')]
-			expr := strings.TrimSpace(strings.TrimPrefix(line, "//go:build"))
-			if !strings.HasPrefix(expr, "!") {
-				continue
-			}
-		}
-		f, err := parser.ParseFile(fset, path, src, parser.ParseComments)
-		if err != nil {
-			fail("parse %s: %v", path, err)
-		}
-		p.files = append(p.files, f)
+	w.root, w.model, w.internal = w.pkgs[modPath], w.pkgs[modPath+"/ldmodel"], w.pkgs[modPath+"/internal"]
+	if w.root == nil || w.model == nil || w.internal == nil {
+		return nil, fmt.Errorf("module packages not found under %s", repo)
 	}
-	return p
-}
-
-func fail(format string, a ...any) {
-	fmt.Fprintf(os.Stderr, "factgen: "+format+"\n", a...)
-	os.Exit(1)
-}
-
-func (p *pkgFiles) funcs() []*ast.FuncDecl {
-	out := []*ast.FuncDecl{}
-	for _, f := range p.files {
-		for _, d := range f.Decls {
-			if fd, ok := d.(*ast.FuncDecl); ok {
-				out = append(out, fd)
+	prog, spkgs := ssautil.AllPackages(pkgs, ssa.InstantiateGenerics)
+	prog.Build()
+	w.prog = prog
+	for _, sp := range spkgs {
+		if sp != nil {
+			w.spkgs[sp.Pkg.Path()] = sp
+		}
+	}
+	for _, p := range []*packages.Package{w.root, w.model, w.internal} {
+		for _, f := range p.Syntax {
+			for _, d := range f.Decls {
+				if fd, ok := d.(*ast.FuncDecl); ok {
+					if obj, ok := p.TypesInfo.Defs[fd.Name].(*types.Func); ok {
+						w.decls[obj] = fd
+					}
+				}
 			}
 		}
 	}
-	return out
+	return w, nil
 }
 
-func (p *pkgFiles) findFunc(name string) *ast.FuncDecl {
-	for _, fd := range p.funcs() {
-		if fd.Name.Name == name {
-			return fd
-		}
-	}
-	return nil
-}
-
-func exprStr(e ast.Expr) string {
-	switch t := e.(type) {
-	case *ast.Ident:
-		return t.Name
-	case *ast.SelectorExpr:
-		return exprStr(t.X) + "." + t.Sel.Name
-	case *ast.StarExpr:
-		return "*" + exprStr(t.X)
-	case *ast.IndexExpr:
-		return exprStr(t.X) + "[" + exprStr(t.Index) + "]"
-	case *ast.ArrayType:
-		return "[]" + exprStr(t.Elt)
-	case *ast.MapType:
-		return "map[" + exprStr(t.Key) + "]" + exprStr(t.Value)
-	case *ast.BasicLit:
-		return t.Value
-	case *ast.CallExpr:
-		return exprStr(t.Fun) + "(…)"
-	case *ast.UnaryExpr:
-		return t.Op.String() + exprStr(t.X)
-	case *ast.ParenExpr:
-		return "(" + exprStr(t.X) + ")"
-	case *ast.BinaryExpr:
-		return exprStr(t.X) + " " + t.Op.String() + " " + exprStr(t.Y)
-	case *ast.FuncType:
-		return "func"
-	case *ast.InterfaceType:
-		return "interface"
-	case *ast.Ellipsis:
-		return "..." + exprStr(t.Elt)
-	}
-	return fmt.Sprintf("%T", e)
+func inModule(p *types.Package) bool {
+	return p != nil && (p.Path() == modPath || strings.HasPrefix(p.Path(), modPath+"/"))
 }
 
 // ---------- Lean rendering ----------
 
-func leanStr(s string) string { return strconv.Quote(s) }
+func leanStr(s string) string {
+	var b strings.Builder
+	b.WriteByte('"')
+	for _, r := range s {
+		switch {
+		case r == '"':
+			b.WriteString("\\\"")
+		case r == '\\':
+			b.WriteString("\\\\")
+		case r == '\n':
+			b.WriteString("\\n")
+		case r == '\t':
+			b.WriteString("\\t")
+		case r < 0x20 || r == 0x7f:
+			fmt.Fprintf(&b, "\\x%02x", r)
+		default:
+			b.WriteRune(r)
+		}
+	}
+	b.WriteByte('"')
+	return b.String()
+}
 
 func leanStrList(xs []string) string {
 	q := make([]string, len(xs))
@@ -137,6 +124,17 @@ func leanStrList(xs []string) string {
 		q[i] = leanStr(x)
 	}
 	return "[" + strings.Join(q, ", ") + "]"
+}
+
+func leanStrListLines(xs []string) string {
+	if len(xs) == 0 {
+		return "[]"
+	}
+	q := make([]string, len(xs))
+	for i, x := range xs {
+		q[i] = "  " + leanStr(x)
+	}
+	return "[\n" + strings.Join(q, ",\n") + "\n]"
 }
 
 type pair struct{ a, b string }
@@ -149,799 +147,658 @@ func leanPairList(xs []pair) string {
 	return "[" + strings.Join(q, ", ") + "]"
 }
 
-// ---------- extractions ----------
-
-func constValues(p *pkgFiles) map[string]string {
-	out := map[string]string{}
-	for _, f := range p.files {
-		for _, d := range f.Decls {
-			gd, ok := d.(*ast.GenDecl)
-			if !ok || gd.Tok != token.CONST {
-				continue
-			}
-			for _, s := range gd.Specs {
-				vs := s.(*ast.ValueSpec)
-				for i, n := range vs.Names {
-					if i < len(vs.Values) {
-						out[n.Name] = exprStr(vs.Values[i])
-					}
-				}
-			}
+func sortedSet(xs []string) []string {
+	sort.Strings(xs)
+	out := xs[:0]
+	for i, x := range xs {
+		if i == 0 || x != xs[i-1] {
+			out = append(out, x)
 		}
 	}
 	return out
 }
 
-func unquote(s string) string {
-	if u, err := strconv.Unquote(s); err == nil {
-		return u
-	}
-	return s
+// ---------- output with per-fact failure isolation ----------
+
+type out struct {
+	b        strings.Builder
+	problems []string
 }
 
-// switchCases returns, for the first switch statement in fn (optionally the one whose tag matches
-// tagSuffix), the list of case expressions in order.
-func switchCases(fn *ast.FuncDecl, tagSuffix string) [][]string {
-	var res [][]string
-	found := false
-	ast.Inspect(fn.Body, func(n ast.Node) bool {
-		if found {
-			return false
+func (o *out) w(format string, a ...any) { fmt.Fprintf(&o.b, format, a...) }
+
+// guard runs one extraction; if it panics (extraction failure), the fallback definition is emitted
+// instead and the problem is recorded.
+func (o *out) guard(name string, fallback string, f func()) {
+	mark := o.b.Len()
+	defer func() {
+		if r := recover(); r != nil {
+			s := o.b.String()[:mark]
+			o.b.Reset()
+			o.b.WriteString(s)
+			msg := fmt.Sprintf("%s: %v", name, r)
+			o.problems = append(o.problems, msg)
+			fmt.Fprintln(os.Stderr, "factgen: could not extract "+msg)
+			o.w("%s\n", fallback)
 		}
-		sw, ok := n.(*ast.SwitchStmt)
-		if !ok {
-			return true
-		}
-		if tagSuffix != "" && (sw.Tag == nil || !strings.HasSuffix(exprStr(sw.Tag), tagSuffix)) {
-			return true
-		}
-		found = true
-		for _, c := range sw.Body.List {
-			cc := c.(*ast.CaseClause)
-			labels := []string{}
-			for _, e := range cc.List {
-				labels = append(labels, exprStr(e))
-			}
-			res = append(res, labels)
-		}
-		return false
-	})
-	return res
+	}()
+	f()
 }
 
-var readerPrimitives = map[string]bool{"String": true, "StringOrNull": true, "Bool": true, "BoolOrNull": true, "Int": true,
-	"IntOrNull": true, "Float64": true, "Float64OrNull": true, "Array": true, "ArrayOrNull": true, "Object": true,
-	"ObjectOrNull": true, "Any": true, "Null": true, "SkipValue": true}
+func failf(format string, a ...any) { panic(fmt.Sprintf(format, a...)) }
 
-// readerCallsIn returns the reader-ish calls made directly in a list of statements (not inside
-// nested switch statements): the primitive a decoder case uses for its property.
-func readerCall(stmts []ast.Stmt) string {
-	calls := []string{}
-	for _, st := range stmts {
-		ast.Inspect(st, func(n ast.Node) bool {
-			switch t := n.(type) {
-			case *ast.SwitchStmt:
-				return false
-			case *ast.CallExpr:
-				name := exprStr(t.Fun)
-				if sel, ok := t.Fun.(*ast.SelectorExpr); ok && readerPrimitives[sel.Sel.Name] {
-					if _, isIdent := sel.X.(*ast.Ident); isIdent {
-						calls = append(calls, sel.Sel.Name)
-						return true
-					}
-				}
-				if strings.HasPrefix(name, "read") {
-					calls = append(calls, name)
-				} else if strings.HasSuffix(name, ".ReadFromJSONReader") {
-					calls = append(calls, "ReadFromJSONReader")
-				}
-			}
-			return true
-		})
+func natFallback(name string) string { return fmt.Sprintf("def %s : Nat := 0", name) }
+func strFallback(name string) string {
+	return fmt.Sprintf("def %s : String := \"<not extracted>\"", name)
+}
+func listFallback(name string) string {
+	return fmt.Sprintf("def %s : List String := [\"<not extracted>\"]", name)
+}
+func pairsFallback(name string) string {
+	return fmt.Sprintf("def %s : List (String × String) := [(\"<not extracted>\", \"\")]", name)
+}
+
+// ---------- small helpers over types / syntax ----------
+
+func (w *world) constOf(p *packages.Package, name string) *types.Const {
+	c, _ := p.Types.Scope().Lookup(name).(*types.Const)
+	if c == nil {
+		failf("constant %s.%s not found", p.Name, name)
 	}
-	if len(calls) == 0 {
+	return c
+}
+
+func (w *world) natConst(p *packages.Package, name string) uint64 {
+	c := w.constOf(p, name)
+	v, ok := constant.Uint64Val(constant.ToInt(c.Val()))
+	if !ok {
+		failf("constant %s is not a natural number: %s", name, c.Val())
+	}
+	return v
+}
+
+func (w *world) funcNamed(p *packages.Package, name string) (*types.Func, *ast.FuncDecl) {
+	for obj, fd := range w.decls {
+		if obj.Pkg() == p.Types && obj.Name() == name {
+			return obj, fd
+		}
+	}
+	return nil, nil
+}
+
+// typeStr renders a type relative to the module (package-local names unqualified for the package
+// they are printed in is avoided: always qualified by package name).
+func typeStr(t types.Type) string {
+	return types.TypeString(t, func(p *types.Package) string { return p.Name() })
+}
+
+func recvTypeName(f *types.Func) string {
+	sig := f.Type().(*types.Signature)
+	if sig.Recv() == nil {
 		return ""
 	}
-	return calls[0]
-}
-
-// decoderTable: for every switch on a property name inside fn, the (label, reader) pairs, in
-// source order; nested switches are reported under "fn/<n>".
-func decoderTables(fn *ast.FuncDecl) []struct {
-	name  string
-	props []pair
-} {
-	var out []struct {
-		name  string
-		props []pair
+	t := sig.Recv().Type()
+	star := ""
+	if p, ok := t.(*types.Pointer); ok {
+		t = p.Elem()
+		star = "*"
 	}
-	idx := 0
-	ast.Inspect(fn.Body, func(n ast.Node) bool {
-		sw, ok := n.(*ast.SwitchStmt)
-		if !ok || sw.Tag == nil {
-			return true
-		}
-		tag := exprStr(sw.Tag)
-		if c, ok := sw.Tag.(*ast.CallExpr); ok && len(c.Args) == 1 {
-			tag = exprStr(c.Args[0])
-		}
-		if !strings.Contains(tag, "Name") && !strings.Contains(tag, "name") {
-			return true
-		}
-		props := []pair{}
-		for _, c := range sw.Body.List {
-			cc := c.(*ast.CaseClause)
-			for _, e := range cc.List {
-				props = append(props, pair{unquote(exprStr(e)), readerCall(cc.Body)})
-			}
-		}
-		name := fn.Name.Name
-		if idx > 0 {
-			name = fmt.Sprintf("%s/%d", fn.Name.Name, idx)
-		}
-		idx++
-		out = append(out, struct {
-			name  string
-			props []pair
-		}{name, props})
-		return true
-	})
-	return out
-}
-
-// encoderProps: property names written by fn through Name("x") (unconditional) and Maybe("x", …)
-// or Name inside an if-statement (conditional), in source order.
-func encoderProps(fn *ast.FuncDecl) []pair {
-	props := []pair{}
-	var walk func(n ast.Node, cond bool)
-	walk = func(n ast.Node, cond bool) {
-		ast.Inspect(n, func(m ast.Node) bool {
-			switch t := m.(type) {
-			case *ast.IfStmt:
-				if t.Init != nil {
-					walk(t.Init, cond)
-				}
-				walk(t.Body, true)
-				if t.Else != nil {
-					walk(t.Else, true)
-				}
-				return false
-			case *ast.CallExpr:
-				if sel, ok := t.Fun.(*ast.SelectorExpr); ok && len(t.Args) >= 1 {
-					if lit, ok := t.Args[0].(*ast.BasicLit); ok && lit.Kind == token.STRING {
-						switch sel.Sel.Name {
-						case "Name":
-							props = append(props, pair{unquote(lit.Value), map[bool]string{false: "always", true: "conditional"}[cond]})
-						case "Maybe":
-							props = append(props, pair{unquote(lit.Value), "conditional"})
-						}
-					}
-				}
-				// helper calls that write a named property passed as a string argument
-				if id, ok := t.Fun.(*ast.Ident); ok && strings.HasPrefix(id.Name, "write") {
-					for _, a := range t.Args {
-						if lit, ok := a.(*ast.BasicLit); ok && lit.Kind == token.STRING {
-							props = append(props, pair{unquote(lit.Value), map[bool]string{false: "always", true: "conditional"}[cond] + ":" + id.Name})
-						}
-					}
-				}
-			}
-			return true
-		})
+	if n, ok := t.(*types.Named); ok {
+		return star + n.Obj().Name()
 	}
-	walk(fn.Body, false)
-	return props
+	return star + typeStr(t)
 }
 
-func calleesIn(fn *ast.FuncDecl, interesting map[string]bool) []string {
-	seen := map[string]bool{}
-	out := []string{}
-	ast.Inspect(fn.Body, func(n ast.Node) bool {
-		if c, ok := n.(*ast.CallExpr); ok {
-			name := exprStr(c.Fun)
-			if i := strings.LastIndex(name, "."); i >= 0 {
-				name = name[i+1:]
-			}
-			if interesting[name] && !seen[name] {
-				seen[name] = true
-				out = append(out, name)
-			}
-		}
-		return true
-	})
-	return out
-}
-
-func recvName(fd *ast.FuncDecl) string {
-	if fd.Recv == nil || len(fd.Recv.List) == 0 {
-		return ""
+func qualFunc(f *types.Func) string {
+	if r := recvTypeName(f); r != "" {
+		return "(" + r + ")." + f.Name()
 	}
-	return exprStr(fd.Recv.List[0].Type)
-}
-
-func qualName(fd *ast.FuncDecl) string {
-	if r := recvName(fd); r != "" {
-		return "(" + r + ")." + fd.Name.Name
-	}
-	return fd.Name.Name
-}
-
-// sharedTypes: values of these types are shared between calls/goroutines (evaluator, data model,
-// context); evaluationScope and evaluationStack are per-call and deliberately not listed.
-var sharedTypes = map[string]bool{"evaluator": true, "FeatureFlag": true, "Segment": true, "Clause": true, "Target": true,
-	"SegmentTarget": true, "FlagRule": true, "SegmentRule": true, "VariationOrRollout": true, "Rollout": true,
-	"ldmodel.FeatureFlag": true, "ldmodel.Segment": true, "ldmodel.Clause": true, "ldmodel.Target": true,
-	"ldmodel.SegmentTarget": true, "ldmodel.FlagRule": true, "ldmodel.SegmentRule": true, "ldmodel.VariationOrRollout": true,
-	"ldcontext.Context": true, "Context": true, "Prerequisite": true, "WeightedVariation": true,
-	"clausePreprocessedData": true, "targetPreprocessedData": true, "segmentPreprocessedData": true}
-
-func baseType(t string) string {
-	t = strings.TrimPrefix(t, "*")
-	t = strings.TrimPrefix(t, "[]")
-	t = strings.TrimPrefix(t, "*")
-	return t
-}
-
-// typedPath renders an access path with the root identifier replaced by its declared type and
-// index expressions by [], so that renaming a parameter, receiver or loop variable changes nothing.
-func typedPath(e ast.Expr, params map[string]string) string {
-	switch t := e.(type) {
-	case *ast.Ident:
-		if ty, ok := params[t.Name]; ok {
-			return "(" + ty + ")"
-		}
-		return t.Name
-	case *ast.SelectorExpr:
-		return typedPath(t.X, params) + "." + t.Sel.Name
-	case *ast.IndexExpr:
-		return typedPath(t.X, params) + "[]"
-	case *ast.StarExpr:
-		return "*" + typedPath(t.X, params)
-	case *ast.ParenExpr:
-		return typedPath(t.X, params)
-	case *ast.CallExpr:
-		return typedPath(t.Fun, params) + "()"
-	}
-	return exprStr(e)
-}
-
-func paramTypes(fd *ast.FuncDecl) map[string]string {
-	params := map[string]string{}
-	add := func(fl *ast.FieldList) {
-		if fl == nil {
-			return
-		}
-		for _, f := range fl.List {
-			for _, n := range f.Names {
-				params[n.Name] = exprStr(f.Type)
-			}
-		}
-	}
-	add(fd.Recv)
-	add(fd.Type.Params)
-	return params
-}
-
-func rootIdent(e ast.Expr) string {
-	for {
-		switch t := e.(type) {
-		case *ast.Ident:
-			return t.Name
-		case *ast.SelectorExpr:
-			e = t.X
-		case *ast.IndexExpr:
-			e = t.X
-		case *ast.StarExpr:
-			e = t.X
-		case *ast.ParenExpr:
-			e = t.X
-		default:
-			return ""
-		}
-	}
-}
-
-// sharedWrites lists, per function, assignments whose left-hand side is reached through a
-// parameter/receiver of a shared type by pointer, slice or map (i.e. visible to the caller), or
-// through a package-level variable.
-func sharedWrites(p *pkgFiles, pkgVars map[string]bool) []string {
-	out := []string{}
-	for _, fd := range p.funcs() {
-		if fd.Body == nil {
-			continue
-		}
-		params := map[string]string{}
-		add := func(fl *ast.FieldList) {
-			if fl == nil {
-				return
-			}
-			for _, f := range fl.List {
-				for _, n := range f.Names {
-					params[n.Name] = exprStr(f.Type)
-				}
-			}
-		}
-		add(fd.Recv)
-		add(fd.Type.Params)
-		record := func(lhs ast.Expr) {
-			if _, isIdent := lhs.(*ast.Ident); isIdent {
-				// plain assignment to a parameter rebinding the local copy is not a shared write,
-				// but assignment to a package-level variable is
-				if pkgVars[lhs.(*ast.Ident).Name] {
-					out = append(out, p.name+"."+qualName(fd)+": "+typedPath(lhs, params))
-				}
-				return
-			}
-			root := rootIdent(lhs)
-			if root == "" {
-				return
-			}
-			if pkgVars[root] {
-				if _, shadow := params[root]; !shadow {
-					out = append(out, p.name+"."+qualName(fd)+": "+typedPath(lhs, params))
-					return
-				}
-			}
-			t, ok := params[root]
-			if !ok {
-				return
-			}
-			visible := strings.HasPrefix(t, "*") || strings.HasPrefix(t, "[]") || strings.HasPrefix(t, "map[")
-			// a value receiver/parameter holding slices still shares their elements
-			if _, isIdx := lhs.(*ast.IndexExpr); isIdx {
-				visible = true
-			}
-			if containsIndex(lhs) {
-				visible = true
-			}
-			if visible && sharedTypes[baseType(t)] {
-				out = append(out, p.name+"."+qualName(fd)+": "+typedPath(lhs, params))
-			}
-		}
-		ast.Inspect(fd.Body, func(n ast.Node) bool {
-			switch t := n.(type) {
-			case *ast.AssignStmt:
-				if t.Tok == token.DEFINE {
-					return true
-				}
-				for _, l := range t.Lhs {
-					record(l)
-				}
-			case *ast.IncDecStmt:
-				record(t.X)
-			}
-			return true
-		})
-	}
-	sort.Strings(out)
-	dedup := out[:0]
-	for i, x := range out {
-		if i == 0 || x != out[i-1] {
-			dedup = append(dedup, x)
-		}
-	}
-	return dedup
-}
-
-func containsIndex(e ast.Expr) bool {
-	found := false
-	ast.Inspect(e, func(n ast.Node) bool {
-		if _, ok := n.(*ast.IndexExpr); ok {
-			found = true
-		}
-		return true
-	})
-	return found
-}
-
-func packageVars(p *pkgFiles) []string {
-	out := []string{}
-	for _, f := range p.files {
-		for _, d := range f.Decls {
-			gd, ok := d.(*ast.GenDecl)
-			if !ok || gd.Tok != token.VAR {
-				continue
-			}
-			for _, s := range gd.Specs {
-				vs := s.(*ast.ValueSpec)
-				for _, n := range vs.Names {
-					t := ""
-					if vs.Type != nil {
-						t = exprStr(vs.Type)
-					}
-					out = append(out, n.Name+" : "+t)
-				}
-			}
-		}
-	}
-	sort.Strings(out)
-	return out
+	return f.Name()
 }
 
 func main() {
 	repo := flag.String("repo", "/repo", "")
 	outPath := flag.String("out", "", "")
 	flag.Parse()
-	root := loadPkg(*repo, "evaluation")
-	model := loadPkg(filepath.Join(*repo, "ldmodel"), "ldmodel")
-	internal := loadPkg(filepath.Join(*repo, "internal"), "internal")
-
-	var b strings.Builder
-	w := func(format string, a ...any) { fmt.Fprintf(&b, format, a...) }
-	w("/-\n  GENERATED by /verif/factgen from /repo's sources — do not edit. Regenerated on every check run;\n  LDEval/Obligations/*.lean prove that these tables equal the ones the model is written against.\n-/\nnamespace LD.Generated\n\n")
-
-	// --- constants
-	rc := constValues(root)
-	need := func(m map[string]string, k string) string {
-		v, ok := m[k]
-		if !ok {
-			fail("constant %s not found", k)
-		}
-		return v
-	}
-	ls := need(rc, "longScale")
-	ls = strings.TrimSuffix(strings.TrimPrefix(ls, "float32(…)"), "")
-	// the literal inside float32(…)
-	lit := ""
-	for _, f := range root.files {
-		ast.Inspect(f, func(n ast.Node) bool {
-			if vs, ok := n.(*ast.ValueSpec); ok && len(vs.Names) == 1 && vs.Names[0].Name == "longScale" && len(vs.Values) == 1 {
-				if c, ok := vs.Values[0].(*ast.CallExpr); ok && exprStr(c.Fun) == "float32" && len(c.Args) == 1 {
-					lit = exprStr(c.Args[0])
-				}
-			}
-			return true
-		})
-	}
-	if lit == "" {
-		fail("longScale is no longer float32(<literal>)")
-	}
-	n, err := strconv.ParseUint(lit, 0, 64)
+	abs, _ := filepath.Abs(*repo)
+	w, err := load(abs, "")
 	if err != nil {
-		fail("longScale literal %q: %v", lit, err)
+		fmt.Fprintf(os.Stderr, "factgen: cannot load %s: %v\n", abs, err)
+		os.Exit(1)
 	}
-	w("def longScaleLiteral : Nat := %d\n", n)
-	for _, k := range []string{"initialHashInputBufferSize", "preallocatedPrerequisiteChainSize", "preallocatedSegmentChainSize"} {
-		v, err := strconv.ParseUint(need(rc, k), 0, 64)
-		if err != nil {
-			fail("constant %s: %v", k, err)
-		}
-		w("def %s : Nat := %d\n", k, v)
-	}
-	// how many hex characters of the hash are used: hexEncodedChars[:N]
-	hexN := ""
-	if fn := root.findFunc("computeBucketValue"); fn != nil {
-		ast.Inspect(fn.Body, func(n ast.Node) bool {
-			if se, ok := n.(*ast.SliceExpr); ok && exprStr(se.X) == "hexEncodedChars" && se.High != nil {
-				hexN = exprStr(se.High)
-			}
-			return true
-		})
-	}
-	if hexN == "" {
-		fail("computeBucketValue no longer slices hexEncodedChars[:N]")
-	}
-	w("def hashHexDigits : Nat := %s\n\n", hexN)
+	o := &out{}
+	o.w("/-\n  GENERATED by /verif/factgen from /repo's sources — do not edit. Regenerated on every check run;\n  LDEval/Obligations/*.lean prove that these tables equal the ones the model is written against.\n-/\nnamespace LD.Generated\n\n")
 
-	// --- operators
-	mc := constValues(model)
-	ops := []pair{}
-	opNames := []string{}
-	for k := range mc {
-		if strings.HasPrefix(k, "Operator") {
-			opNames = append(opNames, k)
-		}
-	}
-	sort.Strings(opNames)
-	for _, k := range opNames {
-		ops = append(ops, pair{k, unquote(mc[k])})
-	}
-	w("def operatorConstants : List (String × String) := %s\n", leanPairList(ops))
-	doOp := root.findFunc("doOp")
-	if doOp == nil {
-		fail("doOp not found")
-	}
-	cases := []string{}
-	for _, labels := range switchCases(doOp, "") {
-		for _, l := range labels {
-			name := strings.TrimPrefix(l, "ldmodel.")
-			v, ok := mc[name]
-			if !ok {
-				fail("doOp case %s is not an operator constant", l)
-			}
-			cases = append(cases, unquote(v))
-		}
-	}
-	w("def doOpCases : List String := %s\n", leanStrList(cases))
-	// operators handled before doOp
-	special := []string{}
-	for _, fn := range []string{"matchAny", "clauseMatchesContext"} {
-		fd := root.findFunc(fn)
-		if fd == nil {
-			fail("%s not found", fn)
-		}
-		ast.Inspect(fd.Body, func(n ast.Node) bool {
-			if be, ok := n.(*ast.BinaryExpr); ok && be.Op == token.EQL && strings.HasSuffix(exprStr(be.X), ".Op") {
-				name := strings.TrimPrefix(exprStr(be.Y), "ldmodel.")
-				if v, ok := mc[name]; ok {
-					special = append(special, fn+":"+unquote(v))
-				}
-			}
-			return true
-		})
-	}
-	w("def specialOperators : List String := %s\n\n", leanStrList(special))
+	emitConsts(w, o)
+	emitOperators(w, o)
+	emitErrors(w, o)
+	emitStatus(w, o)
+	emitStack(w, o)
+	emitCodec(w, o, abs)
+	emitState(w, o)
 
-	// --- error types
-	errTypes := []string{}
-	errKinds := []pair{}
-	for _, fd := range root.funcs() {
-		if fd.Recv == nil {
-			continue
-		}
-		if fd.Name.Name == "Error" {
-			errTypes = append(errTypes, recvName(fd))
-		}
-		if fd.Name.Name == "errorKind" {
-			kind := ""
-			ast.Inspect(fd.Body, func(n ast.Node) bool {
-				if r, ok := n.(*ast.ReturnStmt); ok && len(r.Results) == 1 {
-					kind = strings.TrimPrefix(exprStr(r.Results[0]), "ldreason.")
-				}
-				return true
-			})
-			errKinds = append(errKinds, pair{recvName(fd), kind})
-		}
-	}
-	sort.Strings(errTypes)
-	sort.Slice(errKinds, func(i, j int) bool { return errKinds[i].a < errKinds[j].a })
-	w("def errorTypes : List String := %s\n", leanStrList(errTypes))
-	w("def errorKinds : List (String × String) := %s\n", leanPairList(errKinds))
-	// fallback kind of errorKindForError
-	fb := ""
-	if fd := root.findFunc("errorKindForError"); fd != nil {
-		var last string
-		ast.Inspect(fd.Body, func(n ast.Node) bool {
-			if r, ok := n.(*ast.ReturnStmt); ok && len(r.Results) == 1 {
-				last = strings.TrimPrefix(exprStr(r.Results[0]), "ldreason.")
-			}
-			return true
-		})
-		fb = last
-	}
-	w("def errorKindFallback : String := %s\n", leanStr(fb))
-	// Evaluate's first statement
-	first := ""
-	for _, fd := range root.funcs() {
-		if fd.Name.Name == "Evaluate" && fd.Recv != nil && len(fd.Body.List) > 0 {
-			if is, ok := fd.Body.List[0].(*ast.IfStmt); ok {
-				ret := ""
-				ast.Inspect(is.Body, func(n ast.Node) bool {
-					if id, ok := n.(*ast.SelectorExpr); ok && strings.HasPrefix(id.Sel.Name, "EvalError") {
-						ret = id.Sel.Name
-					}
-					return true
-				})
-				first = typedPath(is.Cond.(*ast.BinaryExpr).X, paramTypes(fd)) + " != nil => " + ret
-			}
-		}
-	}
-	w("def evaluateFirstCheck : String := %s\n\n", leanStr(first))
+	o.w("\n/-- Facts factgen could not extract from the current sources (each one also appears above as a\nsentinel value, so the obligations that use it fail). -/\n")
+	o.w("def extractionProblems : List String := %s\n", leanStrListLines(o.problems))
+	o.w("\nend LD.Generated\n")
 
-	// --- status priority, reference format
-	prio := []pair{}
-	if fd := root.findFunc("getBigSegmentsStatusPriority"); fd != nil {
-		ast.Inspect(fd.Body, func(n ast.Node) bool {
-			if cc, ok := n.(*ast.CaseClause); ok {
-				ret := ""
-				for _, st := range cc.Body {
-					if r, ok := st.(*ast.ReturnStmt); ok && len(r.Results) == 1 {
-						ret = exprStr(r.Results[0])
-					}
-				}
-				if cc.List == nil {
-					prio = append(prio, pair{"default", ret})
-				}
-				for _, e := range cc.List {
-					prio = append(prio, pair{strings.TrimPrefix(exprStr(e), "ldreason."), ret})
-				}
-			}
-			return true
-		})
-	}
-	w("def statusPriority : List (String × String) := %s\n", leanPairList(prio))
-	format := ""
-	if fd := root.findFunc("makeBigSegmentRef"); fd != nil {
-		ast.Inspect(fd.Body, func(n ast.Node) bool {
-			if c, ok := n.(*ast.CallExpr); ok && exprStr(c.Fun) == "fmt.Sprintf" && len(c.Args) > 0 {
-				args := []string{}
-				for _, a := range c.Args[1:] {
-					args = append(args, typedPath(a, paramTypes(fd)))
-				}
-				format = unquote(exprStr(c.Args[0])) + " <- " + strings.Join(args, ", ")
-			}
-			return true
-		})
-	}
-	w("def bigSegmentRefFormat : String := %s\n\n", leanStr(format))
-
-	// --- recursion bookkeeping: the stack is passed by value
-	stack := []pair{}
-	for _, fd := range root.funcs() {
-		if fd.Type.Params == nil {
-			continue
-		}
-		for _, f := range fd.Type.Params.List {
-			if strings.Contains(exprStr(f.Type), "evaluationStack") {
-				for range f.Names {
-					stack = append(stack, pair{fd.Name.Name, exprStr(f.Type)})
-				}
-			}
-		}
-	}
-	sort.Slice(stack, func(i, j int) bool { return stack[i].a < stack[j].a })
-	w("def stackParams : List (String × String) := %s\n\n", leanPairList(stack))
-
-	// --- codec tables
-	encFns := []string{"marshalFeatureFlagToWriter", "writeTargets", "marshalSegmentToWriter", "writeSegmentTargets",
-		"writeVariationOrRolloutProperties", "writeClauses"}
-	w("def encoderProps : List (String × List (String × String)) := [\n")
-	for i, name := range encFns {
-		fd := model.findFunc(name)
-		if fd == nil {
-			fail("encoder function %s not found", name)
-		}
-		sep := ","
-		if i == len(encFns)-1 {
-			sep = ""
-		}
-		w("  (%s, %s)%s\n", leanStr(name), leanPairList(encoderProps(fd)), sep)
-	}
-	w("]\n")
-	decFns := []string{"readFeatureFlag", "readPrerequisites", "readTargets", "readFlagRules", "readClauses", "readVariationOrRollout",
-		"readRollout", "readClientSideAvailability", "readMigration", "readSegment", "readSegmentTargets"}
-	w("def decoderProps : List (String × List (String × String)) := [\n")
-	rows := []string{}
-	for _, name := range decFns {
-		fd := model.findFunc(name)
-		if fd == nil {
-			fail("decoder function %s not found", name)
-		}
-		tabs := decoderTables(fd)
-		if name == "readMigration" && len(tabs) == 0 {
-			// readMigration compares the name with == instead of a switch
-			lbl := ""
-			ast.Inspect(fd.Body, func(n ast.Node) bool {
-				if be, ok := n.(*ast.BinaryExpr); ok && be.Op == token.EQL {
-					if lit, ok := be.Y.(*ast.BasicLit); ok {
-						lbl = unquote(lit.Value)
-					}
-				}
-				return true
-			})
-			rows = append(rows, fmt.Sprintf("  (%s, %s)", leanStr(name), leanPairList([]pair{{lbl, "Int"}})))
-			continue
-		}
-		for _, t := range tabs {
-			rows = append(rows, fmt.Sprintf("  (%s, %s)", leanStr(t.name), leanPairList(t.props)))
-		}
-	}
-	w("%s\n]\n", strings.Join(rows, ",\n"))
-	// array/object openers per decoder function (null tolerance)
-	openers := []pair{}
-	for _, name := range append(decFns, "readStringList", "readValueList") {
-		fd := model.findFunc(name)
-		if fd == nil {
-			continue
-		}
-		ops := []string{}
-		ast.Inspect(fd.Body, func(n ast.Node) bool {
-			if c, ok := n.(*ast.CallExpr); ok {
-				if sel, ok := c.Fun.(*ast.SelectorExpr); ok {
-					switch sel.Sel.Name {
-					case "Array", "ArrayOrNull", "Object", "ObjectOrNull":
-						if _, isIdent := sel.X.(*ast.Ident); isIdent {
-							ops = append(ops, sel.Sel.Name)
-						}
-					}
-				}
-			}
-			return true
-		})
-		openers = append(openers, pair{name, strings.Join(ops, " ")})
-	}
-	w("def decoderOpeners : List (String × String) := %s\n", leanPairList(openers))
-	// entry points funnel into the same functions
-	core := map[string]bool{"marshalFeatureFlag": true, "marshalFeatureFlagToWriter": true, "marshalSegment": true, "marshalSegmentToWriter": true,
-		"unmarshalFeatureFlagFromBytes": true, "unmarshalFeatureFlagFromReader": true, "unmarshalSegmentFromBytes": true,
-		"unmarshalSegmentFromReader": true, "readFeatureFlag": true, "readSegment": true, "PreprocessFlag": true, "PreprocessSegment": true}
-	entries := []pair{}
-	allModel := []*pkgFiles{model}
-	ej := loadEasyJSON(filepath.Join(*repo, "ldmodel"))
-	if ej != nil {
-		allModel = append(allModel, ej)
-	}
-	for _, p := range allModel {
-		for _, fd := range p.funcs() {
-			q := qualName(fd)
-			isEntry := strings.Contains(q, "Marshal") || strings.Contains(q, "Unmarshal") || strings.HasPrefix(fd.Name.Name, "marshal") || strings.HasPrefix(fd.Name.Name, "unmarshal")
-			if !isEntry || fd.Body == nil {
-				continue
-			}
-			entries = append(entries, pair{q, strings.Join(calleesIn(fd, core), " ")})
-		}
-	}
-	sort.Slice(entries, func(i, j int) bool { return entries[i].a < entries[j].a })
-	w("def entryPoints : List (String × String) := %s\n\n", leanPairList(entries))
-
-	// --- shared state: package-level variables and writes through shared values
-	pv := []string{}
-	pvSet := map[string]map[string]bool{}
-	for _, p := range []*pkgFiles{root, model, internal} {
-		pvSet[p.name] = map[string]bool{}
-		for _, v := range packageVars(p) {
-			pv = append(pv, p.name+"."+v)
-			pvSet[p.name][strings.TrimSpace(strings.SplitN(v, ":", 2)[0])] = true
-		}
-	}
-	w("def packageVars : List String := %s\n", leanStrList(pv))
-	writes := []string{}
-	for _, p := range []*pkgFiles{root, model, internal} {
-		writes = append(writes, sharedWrites(p, pvSet[p.name])...)
-	}
-	w("def sharedWrites : List String := [\n")
-	for i, s := range writes {
-		sep := ","
-		if i == len(writes)-1 {
-			sep = ""
-		}
-		w("  %s%s\n", leanStr(s), sep)
-	}
-	w("]\n")
-	// evaluator struct fields
-	fields := []string{}
-	for _, f := range root.files {
-		ast.Inspect(f, func(n ast.Node) bool {
-			if ts, ok := n.(*ast.TypeSpec); ok && (ts.Name.Name == "evaluator" || ts.Name.Name == "evaluationScope") {
-				if st, ok := ts.Type.(*ast.StructType); ok {
-					for _, fl := range st.Fields.List {
-						for _, nm := range fl.Names {
-							fields = append(fields, ts.Name.Name+"."+nm.Name+" : "+exprStr(fl.Type))
-						}
-					}
-				}
-			}
-			return true
-		})
-	}
-	w("def stateFields : List String := %s\n", leanStrList(fields))
-	w("\nend LD.Generated\n")
-
+	text := o.b.String()
 	if *outPath == "" {
-		fmt.Print(b.String())
+		fmt.Print(text)
 		return
 	}
 	old, _ := os.ReadFile(*outPath)
-	if string(old) == b.String() {
+	if string(old) == text {
 		return
 	}
 	os.MkdirAll(filepath.Dir(*outPath), 0o755)
-	if err := os.WriteFile(*outPath, []byte(b.String()), 0o644); err != nil {
-		fail("write %s: %v", *outPath, err)
+	if err := os.WriteFile(*outPath, []byte(text), 0o644); err != nil {
+		fmt.Fprintf(os.Stderr, "factgen: write %s: %v\n", *outPath, err)
+		os.Exit(1)
 	}
 }
 
-// loadEasyJSON parses the easyjson-tagged serialization file (guarded by a positive build tag).
-func loadEasyJSON(dir string) *pkgFiles {
-	path := filepath.Join(dir, "model_serialization_easyjson.go")
-	src, err := os.ReadFile(path)
-	if err != nil {
-		return nil
+// ---------- constants ----------
+
+func emitConsts(w *world, o *out) {
+	o.guard("longScaleLiteral", natFallback("longScaleLiteral"), func() {
+		// the integer literal inside float32(…): the model rounds it to float32 itself
+		lit := ""
+		for _, f := range w.root.Syntax {
+			ast.Inspect(f, func(n ast.Node) bool {
+				if vs, ok := n.(*ast.ValueSpec); ok {
+					for i, nm := range vs.Names {
+						if nm.Name == "longScale" && i < len(vs.Values) {
+							if c, ok := vs.Values[i].(*ast.CallExpr); ok && len(c.Args) == 1 {
+								if tv, ok := w.root.TypesInfo.Types[c.Fun]; ok && tv.IsType() && typeStr(tv.Type) == "float32" {
+									if av, ok := w.root.TypesInfo.Types[c.Args[0]]; ok && av.Value != nil {
+										lit = av.Value.ExactString()
+									}
+								}
+							}
+						}
+					}
+				}
+				return true
+			})
+		}
+		if lit == "" {
+			failf("longScale is no longer float32(<integer constant>)")
+		}
+		n, err := strconv.ParseUint(lit, 10, 64)
+		if err != nil {
+			failf("longScale operand %q: %v", lit, err)
+		}
+		o.w("def longScaleLiteral : Nat := %d\n", n)
+	})
+	for _, k := range []string{"initialHashInputBufferSize", "preallocatedPrerequisiteChainSize", "preallocatedSegmentChainSize"} {
+		k := k
+		o.guard(k, natFallback(k), func() { o.w("def %s : Nat := %d\n", k, w.natConst(w.root, k)) })
 	}
-	fset := token.NewFileSet()
-	f, err := parser.ParseFile(fset, path, src, 0)
-	if err != nil {
-		return nil
+	o.guard("hashHexDigits", natFallback("hashHexDigits"), func() {
+		// how many hex characters of the SHA-1 go into the bucket value: the argument of every call
+		// to internal.ParseHexUint64 in the evaluation package is a slice x[:N] with constant N
+		found := map[string]bool{}
+		for _, fn := range w.moduleFunctions(w.root.PkgPath) {
+			for _, blk := range fn.Blocks {
+				for _, ins := range blk.Instrs {
+					call, ok := ins.(*ssa.Call)
+					if !ok {
+						continue
+					}
+					callee := call.Call.StaticCallee()
+					if callee == nil || callee.Name() != "ParseHexUint64" || len(call.Call.Args) != 1 {
+						continue
+					}
+					sl, ok := call.Call.Args[0].(*ssa.Slice)
+					if !ok {
+						failf("argument of ParseHexUint64 is not a slice expression")
+					}
+					hi, ok := sl.High.(*ssa.Const)
+					if !ok || (sl.Low != nil && !isZeroConst(sl.Low)) {
+						failf("argument of ParseHexUint64 is not x[:<constant>]")
+					}
+					found[hi.Value.ExactString()] = true
+				}
+			}
+		}
+		if len(found) != 1 {
+			failf("expected one constant prefix length at the calls to ParseHexUint64, found %d", len(found))
+		}
+		for k := range found {
+			o.w("def hashHexDigits : Nat := %s\n", k)
+		}
+	})
+	o.w("\n")
+}
+
+func isZeroConst(v ssa.Value) bool {
+	c, ok := v.(*ssa.Const)
+	return ok && c.Value != nil && c.Value.ExactString() == "0"
+}
+
+// ---------- operators ----------
+
+func emitOperators(w *world, o *out) {
+	opConsts := map[*types.Const]string{}
+	o.guard("operatorConstants", pairsFallback("operatorConstants"), func() {
+		ops := []pair{}
+		scope := w.model.Types.Scope()
+		for _, name := range scope.Names() {
+			c, ok := scope.Lookup(name).(*types.Const)
+			if !ok {
+				continue
+			}
+			if n, ok := c.Type().(*types.Named); ok && n.Obj().Name() == "Operator" && c.Val().Kind() == constant.String {
+				ops = append(ops, pair{name, constant.StringVal(c.Val())})
+				opConsts[c] = constant.StringVal(c.Val())
+			}
+		}
+		sort.Slice(ops, func(i, j int) bool { return ops[i].a < ops[j].a })
+		if len(ops) == 0 {
+			failf("no constants of type ldmodel.Operator")
+		}
+		o.w("def operatorConstants : List (String × String) := %s\n", leanPairList(ops))
+	})
+	o.guard("operatorsDispatched", listFallback("operatorsDispatched"), func() {
+		// every operator constant the evaluation package mentions (in a case label or a comparison),
+		// wherever the dispatch happens to live
+		seen := []string{}
+		for _, f := range w.root.Syntax {
+			ast.Inspect(f, func(n ast.Node) bool {
+				if id, ok := n.(*ast.Ident); ok {
+					if c, ok := w.root.TypesInfo.Uses[id].(*types.Const); ok {
+						if v, ok := opConsts[c]; ok {
+							seen = append(seen, v)
+						}
+					}
+				}
+				return true
+			})
+		}
+		// an operator compared as a string literal instead of through its constant
+		lits := []string{}
+		for _, f := range w.root.Syntax {
+			ast.Inspect(f, func(n ast.Node) bool {
+				var exprs []ast.Expr
+				switch t := n.(type) {
+				case *ast.BinaryExpr:
+					if t.Op == token.EQL || t.Op == token.NEQ {
+						exprs = []ast.Expr{t.X, t.Y}
+					}
+				case *ast.CaseClause:
+					exprs = t.List
+				}
+				for _, e := range exprs {
+					tv, ok := w.root.TypesInfo.Types[e]
+					if !ok || tv.Value == nil || tv.Value.Kind() != constant.String {
+						continue
+					}
+					if nt, ok := tv.Type.(*types.Named); ok && nt.Obj().Name() == "Operator" {
+						lits = append(lits, constant.StringVal(tv.Value))
+					}
+				}
+				return true
+			})
+		}
+		o.w("def operatorsDispatched : List String := %s\n", leanStrList(sortedSet(append(seen, lits...))))
+	})
+	o.w("\n")
+}
+
+// ---------- error kinds and the context gate ----------
+
+func emitErrors(w *world, o *out) {
+	o.guard("errorTypes", listFallback("errorTypes")+"\n"+pairsFallback("errorKinds"), func() {
+		errTypes := []string{}
+		errKinds := []pair{}
+		for obj, fd := range w.decls {
+			if obj.Pkg() != w.root.Types || recvTypeName(obj) == "" {
+				continue
+			}
+			recv := strings.TrimPrefix(recvTypeName(obj), "*")
+			switch obj.Name() {
+			case "Error":
+				errTypes = append(errTypes, recv)
+			case "errorKind":
+				kinds := returnedConstNames(w.root, fd)
+				errKinds = append(errKinds, pair{recv, strings.Join(kinds, "|")})
+			}
+		}
+		sort.Strings(errTypes)
+		sort.Slice(errKinds, func(i, j int) bool { return errKinds[i].a < errKinds[j].a })
+		o.w("def errorTypes : List String := %s\n", leanStrList(errTypes))
+		o.w("def errorKinds : List (String × String) := %s\n", leanPairList(errKinds))
+	})
+	o.guard("errorKindFallback", strFallback("errorKindFallback"), func() {
+		_, fd := w.funcNamed(w.root, "errorKindForError")
+		if fd == nil {
+			failf("errorKindForError not found")
+		}
+		// the value returned when the error is not one of the package's own types: the return
+		// statement that is not nested in any if/switch
+		last := ""
+		for _, st := range fd.Body.List {
+			if r, ok := st.(*ast.ReturnStmt); ok && len(r.Results) == 1 {
+				last = constName(w.root, r.Results[0])
+			}
+		}
+		if last == "" {
+			failf("errorKindForError has no top-level return of a constant")
+		}
+		o.w("def errorKindFallback : String := %s\n", leanStr(last))
+	})
+	o.guard("evaluateFirstCheck", strFallback("evaluateFirstCheck"), func() {
+		o.w("def evaluateFirstCheck : String := %s\n", leanStr(w.evaluateGate()))
+	})
+	o.w("\n")
+}
+
+func constName(p *packages.Package, e ast.Expr) string {
+	var id *ast.Ident
+	switch t := e.(type) {
+	case *ast.Ident:
+		id = t
+	case *ast.SelectorExpr:
+		id = t.Sel
 	}
-	return &pkgFiles{name: "ldmodel", files: []*ast.File{f}, fset: fset}
+	if id != nil {
+		if c, ok := p.TypesInfo.Uses[id].(*types.Const); ok {
+			return c.Name()
+		}
+	}
+	if tv, ok := p.TypesInfo.Types[e]; ok && tv.Value != nil {
+		return tv.Value.ExactString()
+	}
+	return ""
+}
+
+func returnedConstNames(p *packages.Package, fd *ast.FuncDecl) []string {
+	out := []string{}
+	ast.Inspect(fd.Body, func(n ast.Node) bool {
+		if r, ok := n.(*ast.ReturnStmt); ok && len(r.Results) == 1 {
+			out = append(out, constName(p, r.Results[0]))
+		}
+		return true
+	})
+	return sortedSet(out)
+}
+
+// evaluateGate describes what (*evaluator).Evaluate does before anything else that could have an
+// effect: in SSA form, the first call instruction of the entry block must be Context.Err on the
+// context parameter, the entry block must branch on its result being non-nil, and the non-nil branch
+// must return a result built from NewEvaluationDetailForError(<constant>, …) without further calls
+// to the module.
+func (w *world) evaluateGate() string {
+	fn := w.method(w.root.PkgPath, "evaluator", "Evaluate")
+	if fn == nil || len(fn.Blocks) == 0 {
+		failf("(*evaluator).Evaluate not found")
+	}
+	entry := fn.Blocks[0]
+	var first *ssa.Call
+	for _, ins := range entry.Instrs {
+		if c, ok := ins.(*ssa.Call); ok {
+			first = c
+			break
+		}
+	}
+	if first == nil {
+		failf("no call in the entry block of Evaluate")
+	}
+	callee := first.Call.StaticCallee()
+	if callee == nil {
+		failf("first call of Evaluate is dynamic")
+	}
+	desc := calleeName(callee)
+	ifIns, ok := entry.Instrs[len(entry.Instrs)-1].(*ssa.If)
+	if !ok {
+		return desc + " (no branch)"
+	}
+	cond, ok := ifIns.Cond.(*ssa.BinOp)
+	if !ok || (cond.X != ssa.Value(first) && cond.Y != ssa.Value(first)) {
+		return desc + " (branch not on its result)"
+	}
+	errBlock := entry.Succs[0]
+	if cond.Op == token.EQL {
+		errBlock = entry.Succs[1]
+	}
+	kinds := []string{}
+	moduleCalls := []string{}
+	seen := map[*ssa.BasicBlock]bool{}
+	var visit func(b *ssa.BasicBlock)
+	visit = func(b *ssa.BasicBlock) {
+		if seen[b] {
+			return
+		}
+		seen[b] = true
+		for _, ins := range b.Instrs {
+			if c, ok := ins.(*ssa.Call); ok {
+				if sc := c.Call.StaticCallee(); sc != nil {
+					if sc.Pkg != nil && inModule(sc.Pkg.Pkg) {
+						moduleCalls = append(moduleCalls, calleeName(sc))
+					}
+					for _, a := range c.Call.Args {
+						if k, ok := a.(*ssa.Const); ok && k.Value != nil && k.Value.Kind() == constant.String {
+							if nt, ok := k.Type().(*types.Named); ok && nt.Obj().Name() == "EvalErrorKind" {
+								kinds = append(kinds, constant.StringVal(k.Value))
+							}
+						}
+					}
+				} else {
+					moduleCalls = append(moduleCalls, "<dynamic call>")
+				}
+			}
+		}
+		for _, s := range b.Succs {
+			visit(s)
+		}
+	}
+	visit(errBlock)
+	res := desc + " != nil => " + strings.Join(sortedSet(kinds), "|")
+	if len(moduleCalls) > 0 {
+		res += " after " + strings.Join(sortedSet(moduleCalls), ",")
+	}
+	return res
+}
+
+func calleeName(f *ssa.Function) string {
+	if f.Signature.Recv() != nil {
+		return "(" + typeStr(f.Signature.Recv().Type()) + ")." + f.Name()
+	}
+	if f.Pkg != nil {
+		return f.Pkg.Pkg.Name() + "." + f.Name()
+	}
+	return f.Name()
+}
+
+// ---------- big-segment status priority, reference format ----------
+
+func emitStatus(w *world, o *out) {
+	o.guard("statusPriority", pairsFallback("statusPriority"), func() {
+		_, fd := w.funcNamed(w.root, "getBigSegmentsStatusPriority")
+		if fd == nil {
+			failf("getBigSegmentsStatusPriority not found")
+		}
+		prio := []pair{}
+		def := ""
+		ast.Inspect(fd.Body, func(n ast.Node) bool {
+			cc, ok := n.(*ast.CaseClause)
+			if !ok {
+				return true
+			}
+			ret := ""
+			for _, st := range cc.Body {
+				if r, ok := st.(*ast.ReturnStmt); ok && len(r.Results) == 1 {
+					ret = constName(w.root, r.Results[0])
+				}
+			}
+			if cc.List == nil {
+				def = ret
+			}
+			for _, e := range cc.List {
+				prio = append(prio, pair{constName(w.root, e), ret})
+			}
+			return true
+		})
+		if len(prio) == 0 {
+			// an if-chain instead of a switch: `if status == X { return n }`
+			for _, st := range fd.Body.List {
+				switch t := st.(type) {
+				case *ast.IfStmt:
+					be, ok := t.Cond.(*ast.BinaryExpr)
+					if !ok || be.Op != token.EQL || len(t.Body.List) != 1 {
+						failf("unrecognised shape of getBigSegmentsStatusPriority")
+					}
+					r, ok := t.Body.List[0].(*ast.ReturnStmt)
+					if !ok || len(r.Results) != 1 {
+						failf("unrecognised shape of getBigSegmentsStatusPriority")
+					}
+					name := constName(w.root, be.Y)
+					if _, isConst := w.root.TypesInfo.Types[be.Y]; !isConst || w.root.TypesInfo.Types[be.Y].Value == nil {
+						name = constName(w.root, be.X)
+					}
+					prio = append(prio, pair{name, constName(w.root, r.Results[0])})
+				case *ast.ReturnStmt:
+					if len(t.Results) == 1 {
+						def = constName(w.root, t.Results[0])
+					}
+				}
+			}
+		} else if def == "" {
+			// default handled by a return after the switch
+			for _, st := range fd.Body.List {
+				if r, ok := st.(*ast.ReturnStmt); ok && len(r.Results) == 1 {
+					def = constName(w.root, r.Results[0])
+				}
+			}
+		}
+		sort.Slice(prio, func(i, j int) bool { return prio[i].a < prio[j].a })
+		prio = append(prio, pair{"default", def})
+		o.w("def statusPriority : List (String × String) := %s\n", leanPairList(prio))
+	})
+	o.guard("bigSegmentRefFormat", strFallback("bigSegmentRefFormat"), func() {
+		obj, fd := w.funcNamed(w.root, "makeBigSegmentRef")
+		if fd == nil {
+			failf("makeBigSegmentRef not found")
+		}
+		_ = obj
+		format := ""
+		ast.Inspect(fd.Body, func(n ast.Node) bool {
+			if c, ok := n.(*ast.CallExpr); ok && len(c.Args) > 0 {
+				if f, ok := calledFunc(w.root, c); ok && f.FullName() == "fmt.Sprintf" {
+					tv := w.root.TypesInfo.Types[c.Args[0]]
+					if tv.Value == nil {
+						failf("format of makeBigSegmentRef is not a constant")
+					}
+					args := []string{}
+					for _, a := range c.Args[1:] {
+						args = append(args, typedPath(w.root, a))
+					}
+					format = constant.StringVal(tv.Value) + " <- " + strings.Join(args, ", ")
+				}
+			}
+			return true
+		})
+		if format == "" {
+			failf("makeBigSegmentRef no longer calls fmt.Sprintf")
+		}
+		o.w("def bigSegmentRefFormat : String := %s\n", leanStr(format))
+	})
+	o.w("\n")
+}
+
+func calledFunc(p *packages.Package, c *ast.CallExpr) (*types.Func, bool) {
+	var id *ast.Ident
+	switch t := c.Fun.(type) {
+	case *ast.Ident:
+		id = t
+	case *ast.SelectorExpr:
+		id = t.Sel
+	}
+	if id == nil {
+		return nil, false
+	}
+	f, ok := p.TypesInfo.Uses[id].(*types.Func)
+	return f, ok
+}
+
+// typedPath renders an access path with the root identifier replaced by its type, so that renaming
+// a parameter, receiver or local changes nothing.
+func typedPath(p *packages.Package, e ast.Expr) string {
+	switch t := e.(type) {
+	case *ast.Ident:
+		if obj := p.TypesInfo.Uses[t]; obj != nil {
+			if _, isVar := obj.(*types.Var); isVar {
+				return "(" + typeStr(obj.Type()) + ")"
+			}
+		}
+		return t.Name
+	case *ast.SelectorExpr:
+		return typedPath(p, t.X) + "." + t.Sel.Name
+	case *ast.IndexExpr:
+		return typedPath(p, t.X) + "[]"
+	case *ast.StarExpr:
+		return "*" + typedPath(p, t.X)
+	case *ast.ParenExpr:
+		return typedPath(p, t.X)
+	case *ast.CallExpr:
+		return typedPath(p, t.Fun) + "()"
+	}
+	return fmt.Sprintf("%T", e)
+}
+
+// ---------- recursion bookkeeping ----------
+
+func emitStack(w *world, o *out) {
+	o.guard("stackParamTypes", listFallback("stackParamTypes"), func() {
+		// every way a function of the evaluation package receives the chain of keys being evaluated
+		kinds := []string{}
+		for obj := range w.decls {
+			if obj.Pkg() != w.root.Types {
+				continue
+			}
+			sig := obj.Type().(*types.Signature)
+			tuples := []*types.Tuple{sig.Params(), sig.Results()}
+			for _, tu := range tuples {
+				for i := 0; i < tu.Len(); i++ {
+					if s := typeStr(tu.At(i).Type()); strings.Contains(s, "evaluationStack") {
+						kinds = append(kinds, s)
+					}
+				}
+			}
+			if r := sig.Recv(); r != nil && strings.Contains(typeStr(r.Type()), "evaluationStack") {
+				kinds = append(kinds, "receiver "+typeStr(r.Type()))
+			}
+		}
+		// and every struct field that holds one
+		for _, name := range w.root.Types.Scope().Names() {
+			tn, ok := w.root.Types.Scope().Lookup(name).(*types.TypeName)
+			if !ok {
+				continue
+			}
+			if st, ok := tn.Type().Underlying().(*types.Struct); ok {
+				for i := 0; i < st.NumFields(); i++ {
+					if strings.Contains(typeStr(st.Field(i).Type()), "evaluationStack") {
+						kinds = append(kinds, "field "+name+"."+st.Field(i).Name()+" "+typeStr(st.Field(i).Type()))
+					}
+				}
+			}
+		}
+		o.w("def stackParamTypes : List String := %s\n", leanStrList(sortedSet(kinds)))
+	})
+	o.guard("stackFields", listFallback("stackFields"), func() {
+		tn, ok := w.root.Types.Scope().Lookup("evaluationStack").(*types.TypeName)
+		if !ok {
+			failf("type evaluationStack not found")
+		}
+		st, ok := tn.Type().Underlying().(*types.Struct)
+		if !ok {
+			failf("evaluationStack is not a struct")
+		}
+		fields := []string{}
+		for i := 0; i < st.NumFields(); i++ {
+			fields = append(fields, st.Field(i).Name()+" : "+typeStr(st.Field(i).Type()))
+		}
+		o.w("def stackFields : List String := %s\n", leanStrList(fields))
+	})
+	o.w("\n")
 }
